@@ -396,7 +396,8 @@ def finish(mod, total, tier, seed, t0):
             if res is not None and res[0] == "HARNESS":
                 sys.stderr.write("HARNESS-ERROR regression replay %s: %s\n" % (e["id"], res[1]))
                 rc = max(rc, 2)
-            elif res is not None and match_known(res[0], known) is None:
+            elif res is not None and (match_known(res[0], known) is None or any(fnmatch.fnmatchcase(res[0], pat) for pat in e.get("regress_buckets", []))):
+                # (the case fails again: with the bucket it was repaired for, or with one that no open finding explains)
                 violations.append(dict(bucket=res[0], campaign_bucket="regression:" + e["id"], case=e["case"], detail=res[1], count=1))
     # committed regression replays (corpus/<ID>/*.json) must pass
     regdir = os.path.join(VERIF, "corpus", pid, "regress")
